@@ -60,7 +60,7 @@ manifest = {
     }],
     "checks": checks,
     "not_applicable": na,
-    "notes": "All checks are static: bin/kafcheck loads /repo's current working tree with go/packages on every run (go1.26.8, offline), builds SSA and evaluates the rule instances of the property; exit 0 = every obligation discharged (KNOWN-FINDING lines allowed), exit 1 + VIOLATION line = a rule is violated by a construct not in known_findings.json, exit 2 = undecided/unresolved anchor (never expected on the unchanged tree). thorough additionally replays, in memory (packages overlay), the sensitivity controls in controls/*.json and the 133 independently seeded breaking changes in seeded/ (the named rule must fire on each) and the 43 behaviour- or property-preserving patches in refactors/ (the check must stay quiet on each); a missed control or a false alarm on a negative control fails the run.",
+    "notes": "All checks are static: bin/kafcheck loads /repo's current working tree with go/packages on every run (go1.26.8, offline), builds SSA and evaluates the rule instances of the property; exit 0 = every obligation discharged (KNOWN-FINDING lines allowed), exit 1 + VIOLATION line = a rule is violated by a construct not in known_findings.json, exit 2 = undecided/unresolved anchor (never expected on the unchanged tree). thorough additionally replays, in memory (packages overlay), the sensitivity controls in controls/*.json and the 133 independently seeded breaking changes in seeded/ (the named rule must fire on each) and the 50 behaviour- or property-preserving patches in refactors/ (the check must stay quiet on each); a missed control or a false alarm on a negative control fails the run.",
 }
 json.dump(manifest, open(os.path.join(V, "MANIFEST.json"), "w"), indent=1)
 print(f"MANIFEST.json: {len(checks)} checks, {len(na)} not_applicable")
